@@ -66,7 +66,12 @@ def checkParam (e : Env) : List String :=
     chk (E.a % p != 0 && E.b % p != 0) "SSWU: a*b = 0 on the curve the map works on" ++
     chk (O.add (O.mul e.K.c0 E.a) E.b == 0) "SSWU: c0 != -b/a" ++
     chk (e.K.c2 == E.a && e.K.c3 == E.b) "SSWU: c2, c3 are not the coefficients of the curve the map works on" ++
-    chk (isSqMod p (g O E (O.mul E.b (O.inv0 (O.mul Z E.a))))) "SSWU: g(B/(Z*A)) is not a square (the exceptional inputs u with Z^2u^4+Zu^2 = 0 do not map to the curve)"
+    chk (isSqMod p (g O E (O.mul E.b (O.inv0 (O.mul Z E.a))))) "SSWU: g(B/(Z*A)) is not a square (the exceptional inputs u with Z^2u^4+Zu^2 = 0 do not map to the curve)" ++
+    -- the constant is a function of the curve alone: the documented search takes the FIRST value 1, 2, 3, … with the two properties
+    -- (a value that depends on earlier selections would make the map depend on more than the input bytes); not for isogenous maps,
+    -- whose Z comes from a table
+    chk (e.ctmap || (Z < 65536 && (List.range Z).all fun v =>
+      v == 0 || isSqMod p v || !isSqMod p (g O E (O.mul E.b (O.inv0 (O.mul v E.a)))))) "SSWU: Z is not the first admissible value (the constant depends on something else than the curve)"
   else
     let K := svdwConst O E Z
     let d := O.add (O.mul 3 (O.mul Z Z)) (O.mul 4 E.a)
@@ -76,7 +81,13 @@ def checkParam (e : Env) : List String :=
     chk (d != 0 && isSqMod p (O.mul (O.neg K.c1) d)) "SvdW: -g(Z)(3Z^2+4A) is zero or not a square" ++
     chk (O.mul e.K.c2 e.K.c2 == O.mul (O.neg K.c1) d && e.K.c2 % 2 == 0 && e.K.c2 == K.c3) "SvdW: c2 is not the even square root of -g(Z)(3Z^2+4A)" ++
     chk (O.add (O.mul e.K.c3 d) (O.mul 4 K.c1) == 0 && e.K.c3 == K.c4) "SvdW: c3 != -4g(Z)/(3Z^2+4A)" ++
-    chk (isSqMod p K.c1 || isSqMod p (g O E K.c2)) "SvdW: neither g(Z) nor g(-Z/2) is a square (the exceptional inputs do not map to the curve)") ++
+    chk (isSqMod p K.c1 || isSqMod p (g O E K.c2)) "SvdW: neither g(Z) nor g(-Z/2) is a square (the exceptional inputs do not map to the curve)" ++
+    chk (Z < 65536 && (List.range Z).all fun v =>
+      v == 0 ||
+      (let gv := g O E v
+       let dv := O.add (O.mul 3 (O.mul v v)) (O.mul 4 E.a)
+       let t := O.mul (O.neg gv) dv
+       t == 0 || !isSqMod p t)) "SvdW: Z is not the first admissible value (the constant depends on something else than the curve)") ++
   (if e.ep.c.a % p == 0 && p % 3 == 1 then
     chk (O.add (O.mul e.K.c4 e.K.c4) 3 == 0) "SwiftEC: c4 is not a square root of -3" else []) ++
   chk (match e.ep.g with | some (_, y) => y % p != 0 | none => false) "try-and-increment: the generator does not witness a non-zero square value of g"
